@@ -268,6 +268,35 @@ func judgeC15(c ReqCase) *Fail {
 			}
 		}
 	}
+	// "taken from the front of the chosen ordering ... `strongest` is the exact reverse": with tie-free importances the
+	// whole order is determined: omitted criteria then kept criteria, ascending (weakest) / descending (strongest)
+	if ok && (ordering == "weakest" || ordering == "strongest") {
+		seq := append(append([]string{}, omitted...), after.critIds()...)
+		tieFree := true
+		vals := map[float64]bool{}
+		for _, id := range seq {
+			if vals[imp[id]] {
+				tieFree = false
+			}
+			vals[imp[id]] = true
+		}
+		scale := 1.0
+		for _, x := range imp {
+			scale = math.Max(scale, math.Abs(x))
+		}
+		if tieFree {
+			st.inc("C15:full-order-checked")
+			for i := 1; i < len(seq); i++ {
+				a, b := imp[seq[i-1]], imp[seq[i]]
+				if math.Abs(a-b) <= 1e-9*scale {
+					continue
+				}
+				if (ordering == "weakest" && a > b) || (ordering == "strongest" && a < b) {
+					return failf("ordering-is-importance-order", "%s ordering lists %v (omitted first, then kept) with importances %v: %s before %s", ordering, seq, imp, seq[i-1], seq[i])
+				}
+			}
+		}
+	}
 	for _, l := range c.Labels {
 		if l == "superfluousParam" {
 			st.inc("C15:superfluous-param")
